@@ -454,11 +454,17 @@ func (vc *VC) copyCells(s Sort, dstRow, dstOff, srcRow, srcOff, n string, maxN i
 	// definitional: nr[j] == (dstOff <= j < dstOff+n ? src[srcOff + (j - dstOff)] : dst[j]) for all j;
 	// recorded as an instantiable hypothesis (no quantifier is emitted)
 	gen := func(j string) string {
+		rel := app("bvsub", j, dstOff)
+		if p := "(bvadd " + dstOff + " "; strings.HasPrefix(j, p) && strings.HasSuffix(j, ")") {
+			rel = j[len(p) : len(j)-1] // (dstOff + x) - dstOff == x
+		} else if dstOff == bvLit(64, 0) {
+			rel = j
+		}
 		return eq(sel(nr, j), ite(and(app("bvsle", dstOff, j), app("bvslt", j, app("bvadd", dstOff, n))),
-			sel(srcRow, app("bvadd", srcOff, app("bvsub", j, dstOff))), sel(dstRow, j)))
+			sel(srcRow, bvAdd(srcOff, rel)), sel(dstRow, j)))
 	}
 	vc.assume(fmt.Sprintf("(forall ((j!q (_ BitVec 64))) (! %s :pattern ((select %s j!q))))", gen("j!q"), nr))
-	vc.addHyp(gen)
+	vc.hyps = append(vc.hyps, &hyp{gen: gen, base: dstOff})
 	return nr
 }
 
